@@ -19,6 +19,8 @@
                          stand in front of each sub-command name, traverse reaches the command
                          cobra reaches, with the same words left
      C01_tree_slot_sound ... and the slot theorem holds there: C01 on command trees, in that fragment
+     C01_parent_flag_refuted  outside it the statement is false of the code: witness with a flag word in
+                         front of the name of a non-interspersed sub-command (known finding)
    For a current word that is itself a shorthand word the model makes no claim (flag names / the
    attached value of `-s` are decided by the harness).  Not in the model (decided by the harness,
    real traverse against real cobra on generated command trees): flag words in front of a sub-command
@@ -58,3 +60,13 @@ Theorem C01_tree_slot_sound : forall c ws cur, path_clean c ws ->
   slot_sound (cflags c') (cil c') (snd (cobra_find c ws)) (snd (tree_traverse c ws cur)).
 Proof. exact tree_slot_sound. Qed.
 Print Assumptions C01_tree_slot_sound.
+
+Theorem C01_parent_flag_refuted :
+  let ws := [B [45]; B [45;118]; B [103;97;109;109;97]; w_x] in
+  let c' := fst (cobra_find ex_root2 ws) in
+  fst (tree_traverse ex_root2 ws []) = c' /\
+  snd (cobra_find ex_root2 ws) = [B [45]; B [45;118]; w_x] /\
+  snd (tree_traverse ex_root2 ws []) = SPositional 2 /\
+  ~ slot_sound (cflags c') (cil c') (snd (cobra_find ex_root2 ws)) (snd (tree_traverse ex_root2 ws [])).
+Proof. exact parent_flag_refuted. Qed.
+Print Assumptions C01_parent_flag_refuted.
